@@ -767,6 +767,7 @@ def declare_rename_inbox(reg):
         P, "_helper_rename_inbox", params={"inbox": "ref:Mailbox", "new_name": "str"},
         locals_={"new_mbox": "ref:Mailbox", "server": "ref:IMAPUserServer", "ghost_src": "list[int]", "uids": "list[int]", "new_msg_keys": "list[int]", "sequences": SEQ},
         ghost={
+            "harness": "harness.namespace:RenameThenCreate",
             "start_at": "uids = []",
             "start_requires": {
                 # the mailbox that was just created is another object with its own folder
@@ -842,6 +843,9 @@ def declare_rename_folder(reg):
         modifies=["IMAPUserServer.active_mailboxes", "Mailbox.name", "Mailbox.mailbox"],
         is_async=True,
         props=["C17"],
+        ghost={"harness": "harness.namespace:RenameThenCreate"},
         note="nested helper of _helper_rename_folder, extracted as it stands; its free variable `srvr` is an arbitrary IMAPUserServer; the enclosing function "
              "(symlink, SQL LIKE query for the subtree, directory rename) is not under contract",
     )
+    reg.properties.setdefault("C17", {}).setdefault("bounded", []).append(
+        {"name": "rename-then-create-again", "module": "harness.namespace", "func": "RenameThenCreate"})
